@@ -123,12 +123,45 @@ def end_event(evs):
     return None
 
 
-def expect_from(end, fields=("st", "cls", "out_total", "out_hash", "in_total", "sum")):
+def expect_from(end, fields=("st", "cls", "out_total", "out_hash", "in_total", "sum", "nf_hash")):
     x = {"k": "expect"}
     for f in fields:
         if f in end:
             x[f] = end[f]
     return x
+
+
+def token_expect(end, oracle_events, fields=("st", "cls", "in_total", "nf_hash")):
+    """The expectation of a token decoder's run (std/json, std/cbor): status, consumption, the hash of the oracle
+    run's normal form (spec/TokenStream.tla; every input size) and - when the driver logged the oracle's tokens -
+    the oracle's raw token list "otk" ([x, a, b, con, len] each; TLC normalises both sides itself).  The raw token
+    sequence is NOT compared: a buffer boundary may legitimately cut a token (clause NormalFormEqualsOracle)."""
+    x = expect_from(end, fields=fields)
+    if end.get("tok_recorded"):
+        x["otk"] = [t[:5] for e in oracle_events if e.get("k") == "call" and "tk" in e for t in e["tk"]]
+    return x
+
+
+def token_stats(events_by_job):
+    """Measured numbers for the evidence of the token clauses: tokens logged, distinct token values, how many
+    tokens the normal form merged away, source bytes logged."""
+    ntok = nrec = merged = nbytes = jobs = 0
+    values = set()
+    for evs in events_by_job.values():
+        end = end_event(evs)
+        if end is None or "nf_n" not in end:
+            continue
+        jobs += 1
+        ntok += end.get("out_total", 0)
+        merged += max(0, end.get("out_total", 0) - end.get("nf_n", 0))
+        for e in evs:
+            if e.get("k") == "call" and "tk" in e:
+                nrec += len(e["tk"])
+                nbytes += len(e.get("sb", ()))
+                for t in e["tk"]:
+                    values.add((t[0], t[1], t[2]))
+    return {"token_decoder_jobs": jobs, "tokens_emitted": ntok, "tokens_validated_by_tlc": nrec, "source_bytes_logged": nbytes,
+            "distinct_token_values": len(values), "tokens_merged_by_normal_form": merged}
 
 
 CFG = """SPECIFICATION TSpec
